@@ -15,6 +15,8 @@ use std::path::Path;
 pub enum OpKind {
     Msg,
     BigMsg,
+    /// a frame larger than any internal read window (64 KiB backward-scan chunks, 8 KiB scan chunks)
+    HugeMsg,
     RunSpawned,
     RunEnded,
     SideEffects,
@@ -31,6 +33,7 @@ pub enum OpKind {
 pub const ALL_KINDS: &[OpKind] = &[
     OpKind::Msg,
     OpKind::BigMsg,
+    OpKind::HugeMsg,
     OpKind::RunSpawned,
     OpKind::RunEnded,
     OpKind::SideEffects,
@@ -49,6 +52,7 @@ pub fn default_weights() -> Vec<(OpKind, u64)> {
     vec![
         (OpKind::Msg, 30),
         (OpKind::BigMsg, 2),
+        (OpKind::HugeMsg, 1),
         (OpKind::RunSpawned, 10),
         (OpKind::RunEnded, 10),
         (OpKind::SideEffects, 12),
@@ -118,9 +122,13 @@ pub fn exec(
     let actor = format!("actor-{tag}");
     let origin = "rv".to_string();
     match kind {
-        OpKind::Msg | OpKind::BigMsg => {
+        OpKind::Msg | OpKind::BigMsg | OpKind::HugeMsg => {
             let mut content = token(tag, known);
-            if kind == OpKind::BigMsg {
+            if kind == OpKind::HugeMsg {
+                let n = 70_000 + rng.usize(230_000);
+                content.push(' ');
+                content.push_str(&rng.ascii(n));
+            } else if kind == OpKind::BigMsg {
                 // larger than the 8 KiB writer buffer
                 let n = 8192 + rng.usize(6000);
                 content.push(' ');
